@@ -571,3 +571,40 @@ Definition rm_from_registry (d : list (string * value)) : err + rminfo :=
   | None => inl OtherError
   | Some r => if verify r then inr r else inl AssertionError
   end.
+
+(* ------------------------- several initialisations in one process *)
+
+(* The one process-level input of an initialisation is the environment.  The
+   batch-system variables are part of rmenv; $RADICAL_SMT is read by the base
+   class.  An initialisation READS the environment and leaves it as it was. *)
+Definition penv := option Z.                       (* $RADICAL_SMT in the process *)
+
+Record step := mkStep { st_cfg : cfg; st_env : rmenv; st_acc : list access }.
+
+Definition with_smt_env (pe : penv) (c : cfg) : cfg :=
+  mkCfg (c_nodes c) (c_cores c) (c_gpus c) (c_cpn c) (c_gpn c) (c_backup c) (c_lfs c) (c_mem c)
+        (c_nparts c) pe (c_smt_arch c) (c_bcores c) (c_bgpus c) (c_agents c) (c_services c) (c_fake c).
+
+(* one constructor call in a process whose environment holds pe *)
+Definition init_in (pe : penv) (s : step) : (err + rminfo) * penv :=
+  (rm_construct (with_smt_env pe (st_cfg s)) (st_env s) (st_acc s), pe).
+
+(* what the user does to $RADICAL_SMT before an initialisation *)
+Inductive user := Keep | SetTo (v : option Z).
+Definition apply_user (u : user) (pe : penv) : penv :=
+  match u with Keep => pe | SetTo v => v end.
+
+Fixpoint run_seq (pe : penv) (l : list (user * step)) : list (err + rminfo) :=
+  match l with
+  | [] => []
+  | (u, s) :: t =>
+      let r := init_in (apply_user u pe) s in
+      fst r :: run_seq (snd r) t
+  end.
+
+(* the environment each step is GIVEN by the user alone *)
+Fixpoint given_envs (pe : penv) (l : list (user * step)) : list penv :=
+  match l with
+  | [] => []
+  | (u, _) :: t => apply_user u pe :: given_envs (apply_user u pe) t
+  end.
